@@ -62,7 +62,7 @@ BREAK = [
     ("drop-function-psd-filter", ["C05"], P, "if len(function.list_of_constraints) > 0 or len(function.list_of_psd) > 0]", "if len(function.list_of_constraints) > 0]", "R-DRAIN"),
     ("initial-conditions-slice", ["C05"], P, "        for condition in self.list_of_constraints:\n            wrapper.send_constraint_to_solver(condition)", "        for condition in self.list_of_constraints[1:]:\n            wrapper.send_constraint_to_solver(condition)", "R-DRAIN"),
     ("cvxpy-equality-as-inequality", ["C05", "C11"], CV, "cvxpy_constraint = (self._expression_to_solver(constraint.expression) == 0)", "cvxpy_constraint = (self._expression_to_solver(constraint.expression) <= 0)", "R-SENSE"),
-    ("ge-not-flipped", ["C05", "C06"], EX, "        return -self <= -other", "        return self <= other", "R-CMP"),
+    ("ge-not-flipped", ["C05", "C06"], EX, "        return -self <= -other", "        return self <= other", None),
     ("dense-half-weight", ["C05"], TR, "                Gweights[point1.counter, point2.counter] = weight\n", "                Gweights[point1.counter, point2.counter] = weight / 2\n", "R-TRANSL"),
     ("sparse-no-halving", ["C05", "C11"], TR, "                    Gweights_val.append((weight + weight_sym) / 2)\n                    Gweights_indi.append(max(point1.counter, point2.counter))", "                    Gweights_val.append(weight + weight_sym)\n                    Gweights_indi.append(max(point1.counter, point2.counter))", "R-TRANSL"),
     ("sparse-upper-triangle", ["C05", "C11"], TR, "Gweights_indi.append(max(point1.counter, point2.counter))\n                    Gweights_indj.append(min(point1.counter, point2.counter))", "Gweights_indi.append(min(point1.counter, point2.counter))\n                    Gweights_indj.append(max(point1.counter, point2.counter))", "R-TRANSL"),
@@ -72,8 +72,8 @@ BREAK = [
     # ---- algebra (C06)
     ("merge-aliases-operand", ["C06"], DO, "merged_dict = dict1.copy()", "merged_dict = dict1", "R-"),
     ("prune-positive-only", ["C06"], DO, "if my_dict[key] != 0:", "if my_dict[key] > 0:", "R-DICTOPS"),
-    ("rsub-sign", ["C06"], EX, "        return -self.__sub__(other=other)", "        return self.__sub__(other=other)", "R-REFLECT"),
-    ("point-add-accepts-anything", ["C06"], PT, "        # Verify that other is a Point\n        assert isinstance(other, Point)\n", "", "R-CLOSED"),
+    ("rsub-sign", ["C06"], EX, "        return -self.__sub__(other=other)", "        return self.__sub__(other=other)", "R-OPSEM"),
+    ("point-add-accepts-anything", ["C06"], PT, "        # Verify that other is a Point\n        assert isinstance(other, Point)\n", "", "R-OPSEM"),
     ("operator-creates-leaf", ["C06"], PT, "            return Point(is_leaf=False, decomposition_dict=new_decomposition_dict)", "            return Point(is_leaf=True, decomposition_dict=None)", "R-"),
     ("symmetrize-no-half", ["C06", "C01"], DO, "final_dict = {key: value / 2 for key, value in symmetric_dict.items()}", "final_dict = {key: value for key, value in symmetric_dict.items()}", "R-DICTOPS"),
     # ---- oracle (C07)
